@@ -36,11 +36,11 @@ def classify(spec, cex):
     if r: return None
     text = ' ; '.join(why)
     fn = spec['fn']
-    if fn.startswith('o2o') and 'AssertionError' in text and 'NOT_LOADED' in text and len(why) == 1:
+    if fn.startswith('o2o') and why == ['raised AssertionError instead of UnrepeatableReadError']:
         return 'unrepeatable-read-surfaces-as-assertion-error'
     if fn == 'o2o_relink_untracked' and 'on the second read, no error' in text and len(why) == 1:
         return 'one-to-one-reverse-side-not-read-tracked'
-    if fn == 'reload_g_pending' and why == ['T0: KeyError(E[1])']:
+    if fn == 'reload_g_pending' and why == ['T0: KeyError']:
         return 'keyerror-on-refetch-of-reassigned-reference'
     return None
 
@@ -60,6 +60,7 @@ def run(tier, seed, only=None):
     rep.fn(E._db_set_, A.db_set, A.db_update_reverse, A.load, A.__get__, A.__set__, A.parse_value, core.EntityMeta._fetch_objects,
            core.EntityMeta._parse_row_, core.EntityMeta._find_by_sql_, core.EntityMeta._initialize_bits_, core.EntityMeta._set_rbits,
            E._save_updated_, E._update_dbvals_, core.SessionCache.flush_disabled, dp.RealConverter.dbvals_equal, dp.Converter.dbvals_equal)
+    os.environ.pop('C20_MUTANT', None)                            # canary hook (development only) is never active here
     T = 150 if tier == 'quick' else 900
     if tier == 'thorough': os.environ['C21_FULL'] = '1'          # read by checks/h_c21.py in the worker processes
     from checks import h_c21
@@ -87,19 +88,20 @@ def run(tier, seed, only=None):
     return rep
 
 
-def ties(rep):
-    """Concrete ties (NOT solver-quantified) on a real file SQLite database with a second connection: the plain repeatable-read
-    case and public-API reproductions of the three findings."""
-    import shutil, sqlite3, tempfile
-    from pony.orm import Database, PrimaryKey, Required, Optional, Set, db_session, commit
-    from pony.orm.core import UnrepeatableReadError
+TIE_SRC = r"""
+# Public-API scenarios on a real file SQLite database; a second DB-API connection plays the concurrent committed writer.
+import os, shutil, sqlite3, sys, tempfile
+from pony.orm import Database, PrimaryKey, Required, Optional, Set, db_session, commit
+
+
+def run_case(name, qrows):
     d = tempfile.mkdtemp(prefix='verif_c21_')
     try:
         db = Database()
 
         class P(db.Entity):
             id = PrimaryKey(int)
-            partner = Optional('Q')
+            partner = Optional('Q')            # one-to-one, no column on this side
 
         class Q(db.Entity):
             id = PrimaryKey(int)
@@ -118,26 +120,18 @@ def ties(rep):
             id = PrimaryKey(int)
             x = Required(int)
 
-            def before_update(self):
+            def before_update(self):           # hooks run while flushing is disabled
                 E.select()[:]
         path = os.path.join(d, 'c21.sqlite')
         db.bind('sqlite', path, create_db=True)
         db.generate_mapping(create_tables=True)
         other = sqlite3.connect(path, timeout=1)
-
-        def reset():
-            for t in ('Q', 'P', 'E', 'G', 'T'): other.execute('DELETE FROM "%s"' % t)
-            other.executemany('INSERT INTO "P" VALUES (?)', [(1,), (2,)])
-            other.executemany('INSERT INTO "G" VALUES (?)', [(7,), (8,)])
-            other.execute('INSERT INTO "E" ("id", "a", "g") VALUES (1, 5, 7)')
-            other.execute('INSERT INTO "T" VALUES (1, 0)')
-            other.commit()
-
-        def outcome(body):
-            try:
-                with db_session: return ('values',) + tuple(repr(v) for v in body())
-            except Exception as e:
-                return (type(e).__name__,)
+        other.executemany('INSERT INTO "P" VALUES (?)', [(1,), (2,)])
+        other.executemany('INSERT INTO "G" VALUES (?)', [(7,), (8,)])
+        other.execute('INSERT INTO "E" ("id", "a", "g") VALUES (1, 5, 7)')
+        other.execute('INSERT INTO "T" VALUES (1, 0)')
+        other.executemany('INSERT INTO "Q" VALUES (?, ?)', qrows)
+        other.commit()
 
         def plain():
             e = E[1]; v1 = e.a
@@ -159,27 +153,42 @@ def ties(rep):
 
         def pending_ref():
             g8 = G[8]; e = E[1]; t = T[1]; t.x += 1
-            e.g = g8
+            e.g = g8                            # re-assigned, not read, not flushed
             other.execute('UPDATE "E" SET "g" = NULL'); other.commit()
-            commit()
+            commit()                            # T[1].before_update re-fetches E[1]
             return (e.g,)
-        cases = [('plain attribute changed by another connection, re-fetched', plain, [], None),
-                 ('one-to-one relinked by another connection', relink, [(10, 1), (11, None)], 'one-to-one-reverse-side-not-read-tracked'),
-                 ('one-to-one read as None, then linked by another connection', none_then_linked, [(10, None)], 'unrepeatable-read-surfaces-as-assertion-error'),
-                 ('re-assigned reference re-fetched by a before_update hook', pending_ref, [], 'keyerror-on-refetch-of-reassigned-reference')]
-        for title, body, qrows, key in cases:
-            reset()
-            other.executemany('INSERT INTO "Q" VALUES (?, ?)', qrows); other.commit()
-            out = outcome(body)
-            good = out[0] == 'UnrepeatableReadError' or (out[0] == 'values' and len(set(out[1:])) == 1)
-            nm = 'tie: ' + title
-            if good: rep.add(Ob(nm, 'concrete-tie', HOLDS, detail=repr(out)))
-            else:
-                rep.add(Ob(nm, 'concrete-tie', CEX, reproduced=True, key=key, cex={'outcome': out},
-                           detail='%s -> %r; expected the same value twice or UnrepeatableReadError. %s' % (title, out, FINDINGS.get(key, '')),
-                           replay='# public-API reproduction: function %s() in ties() of /verif/checks/c21.py (two connections on a file SQLite database)\n'
-                                  '# observed: %r\nraise SystemExit(1)\n' % (body.__name__, out)))
+        try:
+            with db_session: out = ('values',) + tuple(repr(v) for v in locals()[name]())
+        except Exception as e:
+            out = (type(e).__name__,)
         other.close()
         db.disconnect()
+        return out
     finally:
         shutil.rmtree(d, ignore_errors=True)
+
+
+def acceptable(out):
+    # the same value on both reads, or a repeatable-read error
+    return out[0] == 'UnrepeatableReadError' or (out[0] == 'values' and len(set(out[1:])) == 1)
+"""
+
+CASES = [('plain attribute changed by another connection, re-fetched', 'plain', [], None),
+         ('one-to-one relinked by another connection', 'relink', [(10, 1), (11, None)], 'one-to-one-reverse-side-not-read-tracked'),
+         ('one-to-one read as None, then linked by another connection', 'none_then_linked', [(10, None)], 'unrepeatable-read-surfaces-as-assertion-error'),
+         ('re-assigned reference re-fetched by a before_update hook', 'pending_ref', [], 'keyerror-on-refetch-of-reassigned-reference')]
+
+
+def ties(rep):
+    """Concrete ties (NOT solver-quantified) on a real file SQLite database with a second connection: the plain repeatable-read
+    case and public-API reproductions of the three findings.  The replay of a failing tie is the same code as a stand-alone script."""
+    ns = {}
+    exec(compile(TIE_SRC, '<c21 ties>', 'exec'), ns)
+    for title, name, qrows, key in CASES:
+        out = ns['run_case'](name, qrows)
+        nm = 'tie: ' + title
+        if ns['acceptable'](out): rep.add(Ob(nm, 'concrete-tie', HOLDS, detail=repr(out)))
+        else:
+            rep.add(Ob(nm, 'concrete-tie', CEX, reproduced=True, key=key, cex={'scenario': name, 'outcome': list(out)},
+                       detail='%s -> %r; expected the same value twice or UnrepeatableReadError. %s' % (title, out, FINDINGS.get(key, '')),
+                       replay=TIE_SRC + '\nout = run_case(%r, %r)\nprint(%r, "->", out)\nsys.exit(0 if acceptable(out) else 1)\n' % (name, qrows, title)))
